@@ -23,8 +23,30 @@ def assumed(name, text):
 
 
 # ------------------------------------------------------------------------------------------------ class facts
-def class_facts():
-    """kind sets for the classes the dispatch tables and isinstance tests name, from REAL issubclass() calls."""
+class ClassFacts(dict):
+    """class name -> kinds whose representative class is a subclass of it (REAL issubclass).  A class that the code under
+    contract names but the table does not list is looked up in the real modules on demand."""
+    reps: dict = {}
+    modules: tuple = ()
+
+    def get(self, name, default=None):
+        if name in self:
+            return self[name]
+        import importlib
+        for m in self.modules:
+            try:
+                cls = getattr(importlib.import_module(m), name)
+            except Exception:
+                continue
+            if isinstance(cls, type):
+                self[name] = sorted(k for k, rep in self.reps.items() if issubclass(rep, cls))
+                return self[name]
+        return default
+
+
+def class_facts(extended: bool = False):
+    """kind sets for the classes the dispatch tables and isinstance tests name, from REAL issubclass() calls.
+    extended: also the kinds K_DIMSYM (symplyphysics Symbol) and K_SYMBOLIC (Symbolic wrappers), used by the C06 dispatcher."""
     import sympy
     from sympy.functions.elementary.miscellaneous import MinMaxBase
     from sympy.physics.units import Quantity as SymQuantity, Dimension
@@ -35,13 +57,21 @@ def class_facts():
         M.K_MIN: sympy.Min, M.K_MAX: sympy.Max, M.K_DERIV: sympy.Derivative, M.K_FUNC: sympy.sin, M.K_NUM: sympy.Integer,
         M.K_SYM: sympy.Symbol,
     }
+    if extended:
+        from symplyphysics.core.symbols.symbols import Symbol as DimSymbol
+        from symplyphysics.core.operations.symbolic import Average
+        reps[M.K_DIMSYM] = DimSymbol
+        reps[M.K_SYMBOLIC] = Average
     named = {"SymQuantity": SymQuantity, "Quantity": Quantity, "Prefix": Prefix, "Mul": sympy.Mul, "Pow": sympy.Pow, "Add": sympy.Add,
              "Abs": sympy.Abs, "MinMaxBase": MinMaxBase, "Min": sympy.Min, "Max": sympy.Max, "Derivative": sympy.Derivative,
              "SymFunction": sympy.Function, "Dimension": Dimension, "Expr": sympy.Expr}
-    facts = {}
+    facts = ClassFacts()
+    facts.reps = reps
+    facts.modules = ("symplyphysics.core.symbols.symbols", "symplyphysics.core.symbols.quantities", "symplyphysics.core.operations.symbolic",
+                     "symplyphysics.core.dimensions.collect_expression", "symplyphysics.core.dimensions.collect_quantity", "sympy",
+                     "sympy.physics.units")
     for nm, cls in named.items():
         facts[nm] = sorted(k for k, rep in reps.items() if issubclass(rep, cls))
-    # an application of an undefined / library function carrying a dimension is still a Function
     return facts
 
 
@@ -177,6 +207,22 @@ def _sympy_re_im(which):
 SYMPY_NAMES = {"re": _sympy_re_im("re"), "im": _sympy_re_im("im")}
 
 
+def _b_complex(ex, ctx, args, kw):
+    x = ex.unopt(args[0], ctx)
+    if z3.is_expr(x) and x.sort() == M.Val:
+        assumed("complex(x)", "complex(x) of a finite SymPy number is that number; of a symbolic value it raises TypeError")
+        res = []
+        ok = M.v_kind(x) != M.SYMB
+        if ex.feasible(ctx, ok):
+            res.append((ctx.fork(ok), x))
+        if ex.feasible(ctx, z3.Not(ok)):
+            res.append((ctx.fork(z3.Not(ok)), ExcVal("TypeError", ("complex of a symbolic value",))))
+        return res
+    if isinstance(x, (int, Fraction)) or (z3.is_expr(x) and (z3.is_real(x) or z3.is_int(x))):
+        return [(ctx, x)]
+    raise GenError(f"complex({x!r})")
+
+
 def _b_hasattr(ex, ctx, args, kw):
     h = ex.models.get("__hasattr__")
     if h is None:
@@ -268,7 +314,7 @@ PY_BUILTINS = {
     "abs": Builtin("abs", _b_abs), "len": Builtin("len", _b_len), "isinstance": Builtin("isinstance", _b_isinstance),
     "str": Builtin("str", _b_str), "zip": Builtin("zip", _b_zip), "enumerate": Builtin("enumerate", _b_enumerate),
     "range": Builtin("range", _b_range), "list": Builtin("list", _b_list), "tuple": Builtin("tuple", _b_tuple),
-    "float": Builtin("float", _b_float), "hasattr": Builtin("hasattr", _b_hasattr), "getattr": Builtin("getattr", _b_getattr),
+    "float": Builtin("float", _b_float), "complex": Builtin("complex", _b_complex), "hasattr": Builtin("hasattr", _b_hasattr), "getattr": Builtin("getattr", _b_getattr),
     "type": Builtin("type", _b_type), "all": Builtin("all", _b_all_any("all")), "any": Builtin("any", _b_all_any("any")),
     "sympify": Builtin("sympify", _b_sympify), "round": Builtin("round", _b_round), "min": Builtin("min", _b_minmax("min")),
     "max": Builtin("max", _b_minmax("max")), "int": Builtin("int", _b_int), "bool": Builtin("bool", _b_bool),
@@ -312,6 +358,20 @@ def make_exec(rel_path: str, unit: str, *, globals_extra=None, contracts=None, m
                 if al.name in SYMPY_NAMES:
                     g[al.asname or al.name] = SYMPY_NAMES[al.name]
     g.update(globals_extra or {})
+    # a name that the module imports and that is a class in the real module is a type reference (so that a maintainer's
+    # isinstance() test against a newly imported class is evaluated with the real subclass relation, not a checker fault)
+    try:
+        import importlib
+        real = importlib.import_module("symplyphysics." + rel_path[:-3].replace("/", "."))
+    except Exception:
+        real = None
+    if real is not None:
+        for st in tree.body:
+            if isinstance(st, ast.ImportFrom):
+                for al in st.names:
+                    nm = al.asname or al.name
+                    if nm not in g and isinstance(getattr(real, nm, None), type):
+                        g[nm] = TypeRef(nm)
     m = {"__exc_subclass__": exc_subclass}
     m.update(models or {})
     return Exec(source_file=path, globals_=g, contracts=contracts or {}, models=m, loop_specs=loop_specs or {},
